@@ -1314,3 +1314,104 @@ def c12(ctx):
                        "declaration) / not-folded / crash")
     if ctx.drift:
         raise Broken("MODEL-DRIFT: run-time circuits disagree with the typed semantics although folding agrees with them:\n  " + "\n  ".join(ctx.drift[:10]))
+
+
+# ---------------------------------------------------------------------- C13
+IOENC_CFG = """SPECIFICATION %s
+CONSTANTS
+  MaxMembers = %d
+  ScalarWidths = %s
+  ElWidths = %s
+  Counts = %s
+%s
+CHECK_DEADLOCK FALSE
+"""
+
+
+@prop("C13")
+def c13(ctx):
+    thorough = ctx.tier == "thorough"
+    ctx.build()
+    ctx.assumptions += ["an argument is a flat sequence of members (the compiler flattens struct arguments into IOArg.Compound); members are bool, "
+                        "intN/uintN, or arrays/slices of intN/uintN; string and struct result values are not decoded",
+                        "array literals are hexadecimal with element widths that are multiples of 4 (other widths have no unambiguous spelling); "
+                        "IOArg.Set takes []byte for arrays, so its array cases use elements of >= 8 bits with byte-sized values",
+                        "the size inferred for a non-negative spelling is the number of bits written (\"255\" -> 8 bits, also for a signed "
+                        "argument); for a negative decimal it must include the sign bit",
+                        "an empty array has no spelling of its own and is excluded from the size-inference cases"]
+    # (M) the layout: decoding inverts encoding, members do not interfere, textual and typed readings agree
+    ctx.tlc_expect_ok("IOEnc", "IOEnc_mc.cfg", name="ioenc-mc", timeout=3000,
+                      cfg_text=IOENC_CFG % ("Spec", 2, "{1, 3}", "{2}", "{0, 1, 2}", "INVARIANT Safety"))
+    if thorough:
+        ctx.tlc_expect_ok("IOEnc", "IOEnc_mc.cfg", name="ioenc-mc-3", timeout=3400, heap="16g",
+                          cfg_text=IOENC_CFG % ("Spec", 3, "{1, 2}", "{2}", "{0, 1}", "INVARIANT Safety"))
+    # (G) cases with their wires through Parse / Set / InputSizes / Result
+    cases = []
+    for nm, sw, ew, cn, num in ((4, "{1, 3, 8, 16}", "{4, 8}", "{0, 1, 3}", 6000 if thorough else 1200),
+                                (3, "{2, 7, 12, 32}", "{8, 16}", "{0, 2, 4}", 6000 if thorough else 800)):
+        g = ctx.tlc("IOEncGen", "IOEnc_gen.cfg", mode="sim", workers=1, sim="num=%d" % num, depth=nm + 3, name="ioenc-gen-%d" % nm, timeout=3000,
+                    cfg_text=IOENC_CFG % ("GSpec", nm, sw, ew, cn, "CONSTRAINT Emit"))
+        if g["status"] != "ok" or not g["cases"]:
+            raise Broken("IOEncGen failed: %s\n%s" % (g["status"], g["out"][-2000:]))
+        cases += g["cases"]
+    # every one- and two-member argument over a small type set
+    g = ctx.tlc("IOEncGen", "IOEnc_gen.cfg", mode="gen", name="ioenc-gen-bfs", timeout=3000,
+                cfg_text=IOENC_CFG % ("GSpec", 2, "{1, 3}" if thorough else "{3}", "{4}", "{0, 1, 2}" if thorough else "{0, 2}", "CONSTRAINT Emit"))
+    if g["status"] != "ok" or not g["cases"]:
+        raise Broken("IOEncGen (exhaustive) failed: %s\n%s" % (g["status"], g["out"][-2000:]))
+    cases += g["cases"] if thorough else sample_cases(g["cases"], 1500, ctx.seed)
+    cf = os.path.join(ctx.tmp, "c13cases.ndjson")
+    write_ndjson(cf, cases)
+    rf = os.path.join(ctx.tmp, "c13res.ndjson")
+    ctx.run_vh(["c13", "replay", cf, rf], timeout=3400)
+    n = ctx.absorb(rf)
+    ctx.cov["traces_validated_against_impl"] += n
+    # (T) members of 1..130 bits: observations of the real API decided by IOEncTrace.tla
+    wr = os.path.join(ctx.tmp, "c13wide.ndjson")
+    wt = os.path.join(ctx.tmp, "c13wide_trace.ndjson")
+    ctx.run_vh(["c13", "wide", wr, wt, 6000 if thorough else 800], timeout=3400)
+    ctx.absorb(wr)
+    events = read_ndjson(wt)
+    if not events:
+        raise Broken("the wide driver recorded nothing")
+    # the binding is live: a corrupted observation must be rejected
+    probe = json.loads(json.dumps(events[0]))
+    if probe["observed"]:
+        probe["observed"][0] ^= 1
+    else:
+        probe["observed"] = [1]
+    keep = ("api", "ts", "vs", "observed", "member")
+    bad = 0
+    nprobe = 0
+    for b in range(0, len(events), 5000):
+        piece = events[b:b + 5000]
+        rows = [{k: e[k] for k in keep if k in e} for e in piece]
+        if b == 0:
+            rows.append({k: probe[k] for k in keep if k in probe})
+        d = os.path.join(ctx.tmp, "ioenc-%d" % b)
+        os.makedirs(d, exist_ok=True)
+        pf = os.path.join(d, "ioenc_trace.ndjson")
+        write_ndjson(pf, rows)
+        r = ctx.tlc("IOEncTrace", "IOEncTrace.cfg", mode="trace", name="ioenctrace-%d" % b, files=[pf], timeout=3000)
+        if r["status"] != "ok" or len(r["cases"]) != len(rows):
+            raise Broken("IOEncTrace failed: %s, %d of %d verdicts\n%s" % (r["status"], len(r["cases"]), len(rows), r["out"][-3000:]))
+        for v in r["cases"]:
+            i = v["i"] - 1
+            if b == 0 and i == len(piece):
+                nprobe += 1
+                if v["ok"]:
+                    raise Broken("IOEncTrace accepts a corrupted observation: the trace specification does not constrain the wires")
+                continue
+            if not v["ok"]:
+                e = piece[i]
+                bad += 1
+                kinds = "+".join(sorted(set(e.get("kinds", [])))) or "member"
+                ctx.violation("%s:wide:%s" % (e["api"], kinds), "%s: the observed wires %s are not the layout of IOEnc.tla" % (e["desc"], "".join(map(str, e["observed"]))[:200]))
+    if nprobe != 1:
+        raise Broken("the corrupted probe event was not decided")
+    ctx.cov["traces_validated_against_impl"] += len(events)
+    ctx.cov["binding_probe"] = "one corrupted observation rejected by IOEncTrace.tla"
+    ctx.cov["rule"] = ("one evaluation = one argument (1..5 members) with values: IOArg.Parse under 5 spelling variants (decimal, hexadecimal, binary, octal, "
+                       "unsigned decimal; true/false/t/f/0/1; hex array literals, short literals, empty), IOArg.Set under 2 Go-type variants (exact-size and "
+                       "64-bit Go integers, []byte, nil; fresh and reused result), InputSizes + InstantiateWithSizes + Parse for the unsized variant of each "
+                       "member, mpc.Result twice per member with the argument compared before and after; non-trivial = >= 2 members")
